@@ -127,7 +127,12 @@ func (e *Emulator) Step() (*Step, error) {
 
 	// Instruction is not a jump instruction so we have to adjust
 	// instruction pointer ourselves.
-	if !jumped {
+	//
+	// An instruction writing instruction pointer which can jump only to the
+	// following instruction is not a jump instruction either. Such an
+	// instruction can be moved within its basic block, but the address it
+	// writes is the one following its original position.
+	if !jumped || len(ins.Jumps()) == 0 {
 		c := expr.ConstFromUint(ins.End())
 		e.State.Regs.Store(expr.IPKey, c, model.AddrWidth)
 	}
